@@ -1,140 +1,183 @@
-(* PubThreadProofs.v — the property oracle accepts the model's trace of EVERY threaded case (any programs, any schedule):
-   every line of a threaded trace is a locked step of PublisherDefs.step from the state the previous lines led to, so the
-   simulation relation R of PublisherProofs is carried along the whole trace whatever the scheduler does. *)
+(* PubThreadProofs.v — the property oracle accepts the model's trace of EVERY threaded case (any programs, any schedule,
+   re-entrant subscribers, two publisher threads): every line of a threaded trace is a locked step of PublisherDefs.step
+   from the state the previous lines led to, so the simulation relation R of PublisherProofs is carried along the whole
+   trace whatever the scheduler does. *)
 From Cocls Require Import Base BaseProofs PublisherDefs PublisherProofs PubThreadDefs.
 Local Open Scope Z_scope.
 
 Section Trace.
-Variable subs : list sthr.
-Variable prog : list op.
+Variable sp : list sthr.
+Variable pa pb : list op.
 
 Fixpoint mon_tr (m : mon) (tr : list (nat * tag * obs)) : mon :=
   match tr with
   | [] => m
-  | x :: t => mon_tr (mon_step m (op_of_tag subs prog (snd (fst x))) (snd x)) t
+  | x :: t => mon_tr (mon_step m (op_of_tag sp pa pb (snd (fst x))) (snd x)) t
   end.
 
 Lemma mon_tr_app m a b : mon_tr m (a ++ b) = mon_tr (mon_tr m a) b.
 Proof. revert m; induction a as [|x a IH]; intros m; [reflexivity|]. cbn [app mon_tr]. apply IH. Qed.
 
 Definition tag_ok (t : tag) : Prop :=
-  match t with TStep c _ => c = 5 \/ c = 6 \/ c = 7 | _ => True end.
+  match t with
+  | TStep c _ => c = 5 \/ c = 6 \/ c = 7
+  | TPub k _ | TSkip k _ => (k <= 1)%nat
+  | _ => True
+  end.
 
 Lemma dec_enc_tag t : tag_ok t ->
   match enc_tag t with [c; a] => dec_tag c a = Some t | _ => False end.
 Proof.
-  destruct t as [i|j|j|c s]; cbn [enc_tag]; intros H; unfold dec_tag.
+  destruct t as [i|k j|k j|c s|i]; cbn [enc_tag tag_ok]; intros H; unfold dec_tag.
   - assert (Z.of_nat i <? 0 = false) by lia. rewrite H0. cbn. rewrite Nat2Z.id. reflexivity.
-  - assert (Z.of_nat j <? 0 = false) by lia. rewrite H0. cbn. rewrite Nat2Z.id. reflexivity.
-  - assert (Z.of_nat j <? 0 = false) by lia. rewrite H0. cbn. rewrite Nat2Z.id. reflexivity.
+  - assert (Z.of_nat j <? 0 = false) by lia. rewrite H0. rewrite Nat2Z.id.
+    destruct k as [|[|k]]; [reflexivity|reflexivity|lia].
+  - assert (Z.of_nat j <? 0 = false) by lia. rewrite H0. rewrite Nat2Z.id.
+    destruct k as [|[|k]]; [reflexivity|reflexivity|lia].
   - assert (Z.of_nat s <? 0 = false) by lia. rewrite H0. rewrite Nat2Z.id.
     destruct H as [ -> | [ -> | -> ] ]; reflexivity.
+  - assert (Z.of_nat i <? 0 = false) by lia. rewrite H0. cbn. rewrite Nat2Z.id. reflexivity.
 Qed.
 
 Lemma mon_lines_enc tr : Forall (fun x => tag_ok (snd (fst x))) tr ->
-  forall m, mon_lines subs prog m (map enc_line tr) = mon_tr m tr.
+  forall m, mon_lines sp pa pb m (map enc_line tr) = mon_tr m tr.
 Proof.
   induction 1 as [|[[t tg] o] tr H F IH]; intros m; [reflexivity|].
   cbn [map mon_tr fst snd]. unfold enc_line at 1. cbn [fst snd].
   pose proof (dec_enc_tag tg H) as D. destruct (enc_tag tg) as [|c [|a [|? ?]]]; try contradiction.
   cbn [app mon_lines]. rewrite D, dec_enc. apply IH.
 Qed.
-End Trace.
 
-Lemma tstep_spec prog e ts t :
-  match snd (tstep prog e ts t) with
-  | Some (tg, o) => o = snd (step e (op_of_tag (ts_subs ts) prog tg)) /\
-                    fst (fst (tstep prog e ts t)) = fst (step e (op_of_tag (ts_subs ts) prog tg)) /\ tag_ok tg
-  | None => fst (fst (tstep prog e ts t)) = e
+Lemma pub_tag_ok ts prog k j : (k <= 1)%nat -> tag_ok (pub_tag ts prog k j).
+Proof.
+  intros K. unfold pub_tag. destruct (nth j prog OBad); try exact K;
+    repeat match goal with |- context[if ?c then _ else _] => destruct c end; exact K.
+Qed.
+
+Lemma tstep_spec e ts t :
+  (forall k rest, stack_of ts t = IPub k :: rest -> (k <= 1)%nat) ->
+  match snd (tstep sp pa pb e ts t) with
+  | Some (tg, o) => o = snd (step e (op_of_tag sp pa pb tg)) /\
+                    fst (fst (tstep sp pa pb e ts t)) = fst (step e (op_of_tag sp pa pb tg)) /\ tag_ok tg
+  | None => fst (fst (tstep sp pa pb e ts t)) = e
   end.
 Proof.
-  unfold tstep. destruct (stack_of ts t) as [|[| |i|w] rest]; cbn [fst snd]; try reflexivity.
-  - split; [reflexivity|]. split; [reflexivity|]. unfold pub_tag.
-    destruct (nth (ts_pub ts) prog OBad); try exact I;
-      repeat match goal with |- context[if ?c then _ else _] => destruct c end; exact I.
-  - destruct (sub_code (sget (ts_subs ts) i)) as [c|] eqn:SC; cbn [fst snd]; [|reflexivity].
+  intros KK. unfold tstep. destruct (stack_of ts t) as [|[k| |i|w|l] rest]; cbn [fst snd]; try reflexivity.
+  - split; [reflexivity|]. split; [reflexivity|]. apply pub_tag_ok. apply (KK k rest). reflexivity.
+  - destruct (st_pc (sget (ts_subs ts) i) =? 7); cbn [fst snd].
+    { split; [reflexivity|]. split; [reflexivity|exact I]. }
+    destruct (sub_code (sget (ts_subs ts) i)) as [c|] eqn:SC; cbn [fst snd]; [|reflexivity].
     split; [reflexivity|]. split; [reflexivity|]. unfold sub_code in SC. cbn [tag_ok].
     repeat match type of SC with (if ?c then _ else _) = _ => destruct c end; try discriminate; injection SC as <-; auto.
 Qed.
 
-(* the subscriber table is never resized, and only program positions / pcs change: op_of_tag is stable *)
-Lemma op_of_tag_modes subs subs' prog tg : (forall i, st_mode (sget subs' i) = st_mode (sget subs i)) ->
-  op_of_tag subs' prog tg = op_of_tag subs prog tg.
-Proof. intros H. destruct tg; cbn [op_of_tag]; try reflexivity. rewrite H. reflexivity. Qed.
+(* publisher items only ever carry program index 0 or 1 *)
+Definition items_ok (st : list item) : Prop := forall k, In (IPub k) st -> (k <= 1)%nat.
+Definition stacks_ok (ts : tstate) : Prop := forall st, In st (ts_stacks ts) -> items_ok st.
 
-Lemma sget_set_nth l i k x : st_mode x = st_mode (sget l i) -> st_mode (sget (set_nth l i x) k) = st_mode (sget l k).
+Lemma items_ok_enqueue cs st : items_ok st -> items_ok (enqueue cs st).
 Proof.
-  unfold sget. revert i k; induction l as [|y l IH]; intros [|i] [|k] H; cbn in *; try reflexivity.
-  - exact H.
-  - apply IH. exact H.
+  induction st as [|x st IH]; intros H; [exact H|].
+  assert (H' : items_ok st) by (intros k I; apply H; right; exact I).
+  destruct x; cbn [enqueue]; try (intros k' [I|I]; [apply H; left; exact I|apply (IH H'); exact I]).
+  intros k' [I|I]; [discriminate|apply H'; exact I].
 Qed.
 
-Lemma wake_prefix_modes w : forall subs i, st_mode (sget (fst (fst (wake_prefix subs w))) i) = st_mode (sget subs i).
+Lemma items_ok_settle_f fuel : forall subs st, items_ok st -> items_ok (snd (settle_f fuel subs st)).
 Proof.
-  induction w as [|a w IH]; intros subs i; [reflexivity|]. cbn [wake_prefix].
-  destruct (find_aw subs a 0) as [k|]; [|apply IH].
-  destruct (st_style (sget subs k) =? 1); cbn [fst].
-  - apply sget_set_nth. reflexivity.
-  - rewrite IH. apply sget_set_nth. reflexivity.
+  induction fuel as [|f IH]; intros subs st H; [exact H|]. cbn [settle_f].
+  destruct st as [|x st]; [exact H|].
+  assert (H' : items_ok st) by (intros k I; apply H; right; exact I).
+  destruct x; try exact H.
+  - destruct (has_q st); [apply IH; apply items_ok_enqueue; exact H'|].
+    destruct (wake_prefix subs w) as [[subs1 [i|]] w1]; cbn [snd]; [|apply IH; exact H'].
+    intros k [I|[I|I]]; try discriminate. destruct w1; [apply H'; exact I|]. destruct I as [I|I]; [discriminate|apply H'; exact I].
+  - destruct l as [|i l]; [apply IH; exact H'|]. cbn [snd]. intros k [I|[I|I]]; try discriminate. apply H'. exact I.
 Qed.
 
-Lemma settle_modes st : forall subs i, st_mode (sget (fst (settle subs st)) i) = st_mode (sget subs i).
+Lemma items_ok_settle st subs : items_ok st -> items_ok (snd (settle subs st)).
+Proof. apply items_ok_settle_f. Qed.
+
+Lemma stack_of_ok ts t : stacks_ok ts -> items_ok (stack_of ts t).
 Proof.
-  induction st as [|x st IH]; intros subs i; [reflexivity|]. destruct x; try reflexivity. cbn [settle].
-  pose proof (wake_prefix_modes w subs i) as WP.
-  destruct (wake_prefix subs w) as [[subs1 [k|]] w1]; cbn [fst] in *; [exact WP|]. rewrite IH. exact WP.
+  intros H. unfold stack_of. destruct (nth_in_or_default t (ts_stacks ts) []) as [I|E]; [apply H; exact I|].
+  rewrite E. intros k [].
 Qed.
 
-Lemma sub_next_mode x o : st_mode (sub_next x o) = st_mode x.
+Lemma In_set_nth {A} (l : list A) i x y : In y (set_nth l i x) -> y = x \/ In y l.
 Proof.
-  unfold sub_next, with_pc, dec_cnt.
-  repeat match goal with |- context[if ?c then _ else _] => destruct c end; reflexivity.
+  revert i; induction l as [|z l IH]; intros [|i] H; cbn in *; try tauto.
+  - destruct H as [H|H]; [left; congruence|right; right; exact H].
+  - destruct H as [H|H]; [right; left; exact H|]. destruct (IH i H) as [E|I]; [left; exact E|right; right; exact I].
 Qed.
 
-Lemma tstep_modes prog e ts t i :
-  st_mode (sget (ts_subs (snd (fst (tstep prog e ts t)))) i) = st_mode (sget (ts_subs ts) i).
+Lemma stacks_ok_set ts' ts t st : ts_stacks ts' = set_nth (ts_stacks ts) t st -> stacks_ok ts -> items_ok st -> stacks_ok ts'.
+Proof. intros E H S x I. rewrite E in I. apply In_set_nth in I as [->|I]; [exact S|apply H; exact I]. Qed.
+
+Lemma tstep_stacks_ok e ts t : stacks_ok ts -> stacks_ok (snd (fst (tstep sp pa pb e ts t))).
 Proof.
-  unfold tstep. destruct (stack_of ts t) as [|[| |k|w] rest]; cbn [fst snd ts_subs set_stack]; try reflexivity.
-  - rewrite settle_modes.
-    destruct (pub_tag ts prog (ts_pub ts)); try reflexivity.
-    destruct (nth (ts_pub ts) prog OBad); try reflexivity.
-    destruct (s <? length (ts_subs ts))%nat; [|reflexivity].
-    apply sget_set_nth. reflexivity.
-  - destruct (sub_code (sget (ts_subs ts) k)); cbn [fst snd ts_subs set_stack set_sthr].
-    + destruct (stays (sub_next (sget (ts_subs ts) k) _)); cbn [fst].
-      * apply sget_set_nth. apply sub_next_mode.
-      * rewrite settle_modes. apply sget_set_nth. apply sub_next_mode.
-    + apply sget_set_nth. reflexivity.
-  - apply settle_modes.
+  intros H. pose proof (stack_of_ok ts t H) as SO. unfold tstep.
+  destruct (stack_of ts t) as [|[k| |i|w|l] rest] eqn:ST; cbn [fst snd]; try exact H.
+  - assert (K : (k <= 1)%nat) by (apply SO; left; reflexivity).
+    assert (RO : items_ok rest) by (intros k' I; apply SO; right; exact I).
+    eapply stacks_ok_set; [reflexivity|exact H|]. apply items_ok_settle.
+    intros k' [I|I]; [discriminate|]. apply in_app_iff in I as [I|I].
+    { destruct (relocks _ _ _); [destruct I as [I|I]; [discriminate|destruct I]|destruct I]. }
+    apply in_app_iff in I as [I|I]; [|apply RO; exact I].
+    unfold pub_rest in I. destruct (S _ <? _)%nat; [destruct I as [I|I]; [injection I as <-; exact K|destruct I]|destruct I].
+  - eapply stacks_ok_set; [reflexivity|exact H|]. apply items_ok_settle. intros k' I. apply SO. right. exact I.
+  - assert (RO : items_ok rest) by (intros k' I; apply SO; right; exact I).
+    assert (RI : items_ok (ISub i :: rest)) by (intros k' [I|I]; [discriminate|apply RO; exact I]).
+    destruct (st_pc (sget (ts_subs ts) i) =? 7); cbn [fst snd].
+    { eapply stacks_ok_set; [reflexivity|exact H|]. apply items_ok_settle.
+      intros k' [I|I]; [discriminate|]. apply in_app_iff in I as [I|I].
+      { destruct (relocks _ _ _); [destruct I as [I|I]; [discriminate|destruct I]|destruct I]. }
+      destruct (stays _); [apply RI; exact I|apply RO; exact I]. }
+    destruct (sub_code (sget (ts_subs ts) i)); cbn [fst snd]; [|exact H].
+    eapply stacks_ok_set; [reflexivity|exact H|].
+    destruct (stays _); cbn [snd]; [exact RI|apply items_ok_settle; exact RO].
+  - eapply stacks_ok_set; [reflexivity|exact H|]. apply items_ok_settle. exact SO.
+  - eapply stacks_ok_set; [reflexivity|exact H|]. apply items_ok_settle. exact SO.
 Qed.
 
-Lemma trun_good subs prog fuel : forall e ts sched m,
-  (forall i, st_mode (sget (ts_subs ts) i) = st_mode (sget subs i)) -> R e m ->
-  good_b (mon_tr subs prog m (trun fuel prog e ts sched)) = true /\
-  Forall (fun x => tag_ok (snd (fst x))) (trun fuel prog e ts sched).
+Lemma trun_good fuel : forall e ts sched m, stacks_ok ts -> R e m ->
+  good_b (mon_tr m (trun fuel sp pa pb e ts sched)) = true /\
+  Forall (fun x => tag_ok (snd (fst x))) (trun fuel sp pa pb e ts sched).
 Proof.
-  induction fuel as [|f IH]; intros e ts sched m MS HR; [split; [apply HR|constructor]|].
+  induction fuel as [|f IH]; intros e ts sched m SK HR; [split; [apply HR|constructor]|].
   cbn [trun]. destruct (pick ts (hd 0 sched)) as [t|]; [|split; [apply HR|constructor]].
-  pose proof (tstep_spec prog e ts t) as SP. pose proof (tstep_modes prog e ts t) as TM.
-  destruct (tstep prog e ts t) as [[e1 ts1] [[tg o]|]]; cbn [fst snd] in *.
-  - destruct SP as (-> & -> & TG). rewrite (op_of_tag_modes subs (ts_subs ts)) by exact MS.
-    assert (MS1 : forall i, st_mode (sget (ts_subs ts1) i) = st_mode (sget subs i)) by (intros i; rewrite TM; apply MS).
-    destruct (IH (fst (step e (op_of_tag subs prog tg))) ts1 (tl sched)
-                 (mon_step m (op_of_tag subs prog tg) (snd (step e (op_of_tag subs prog tg)))) MS1) as (A & B).
+  assert (KK : forall k rest, stack_of ts t = IPub k :: rest -> (k <= 1)%nat).
+  { intros k rest E. apply (stack_of_ok ts t SK). rewrite E. left. reflexivity. }
+  pose proof (tstep_spec e ts t KK) as SP. pose proof (tstep_stacks_ok e ts t SK) as SK1.
+  destruct (tstep sp pa pb e ts t) as [[e1 ts1] [[tg o]|]]; cbn [fst snd] in *.
+  - destruct SP as (-> & -> & TG).
+    destruct (IH (fst (step e (op_of_tag sp pa pb tg))) ts1 (tl sched)
+                 (mon_step m (op_of_tag sp pa pb tg) (snd (step e (op_of_tag sp pa pb tg)))) SK1) as (A & B).
     { apply step_R. exact HR. }
     split; [exact A|constructor; [exact TG|exact B]].
-  - subst e1. apply IH; [intros i; rewrite TM; apply MS|exact HR].
+  - subst e1. apply IH; [exact SK1|exact HR].
 Qed.
+End Trace.
 
-Lemma setup_good subs prog n : forall i e m, R e m ->
-  R (snd (setup subs e i n)) (mon_tr subs prog m (fst (setup subs e i n))) /\
-  Forall (fun x => tag_ok (snd (fst x))) (fst (setup subs e i n)).
+Lemma setup_good sp pa pb n : forall i e m, R e m ->
+  R (snd (setup sp e i n)) (mon_tr sp pa pb m (fst (setup sp e i n))) /\
+  Forall (fun x => tag_ok (snd (fst x))) (fst (setup sp e i n)).
 Proof.
   induction n as [|n IH]; intros i e m HR; [split; [exact HR|constructor]|].
   cbn [setup fst snd mon_tr].
-  assert (E : op_of_tag subs prog (TSetup i) = op_of_tag subs [] (TSetup i)) by reflexivity.
-  rewrite E. destruct (IH (S i) _ _ (step_R e m (op_of_tag subs [] (TSetup i)) HR)) as (A & B).
+  assert (E : op_of_tag sp pa pb (TSetup i) = op_of_tag sp [] [] (TSetup i)) by reflexivity.
+  rewrite E. destruct (IH (S i) _ _ (step_R e m (op_of_tag sp [] [] (TSetup i)) HR)) as (A & B).
   split; [exact A|constructor; [exact I|exact B]].
+Qed.
+
+Lemma init_stacks_ok subs pa pb : stacks_ok (init_ts subs pa pb).
+Proof.
+  intros st I. unfold init_ts in I. cbn [ts_stacks] in I. apply in_app_iff in I as [[<-|I]|[<-|[]]].
+  - destruct pa; intros k J; [destruct J|]. destruct J as [J|J]; [injection J as <-; lia|destruct J].
+  - apply in_map_iff in I as (i & <- & _). destruct (st_pc (sget subs i) =? 5); intros k J; [destruct J|].
+    destruct (st_style (sget subs i) =? 1); [destruct J as [J|[J|J]]; [discriminate|discriminate|destruct J]|].
+    destruct J as [J|J]; [discriminate|destruct J].
+  - destruct pb; intros k J; [destruct J|]. destruct J as [J|J]; [injection J as <-; lia|destruct J].
 Qed.
 
 Theorem threads_oracle_accepts_model ops : pubt_oracle ops (pubt_run ops) = true.
@@ -151,9 +194,9 @@ Proof.
     destruct (cfg_ok_b a (if b =? 0 then unlimited else b)) eqn:E; [|discriminate]. injection CF as <- <-. exact E. }
   unfold thr_trace.
   assert (R0 : R (tst0 (tc_mn c) (tc_mx c)) (mon0 (tc_mn c) (tc_mx c))) by (split; [reflexivity|right; apply Inv0; exact C]).
-  destruct (setup_good (tc_subs c) (tc_prog c) (length (tc_subs c)) 0 _ _ R0) as (RS & FS).
-  destruct (trun_good (tc_subs c) (tc_prog c) (fuel_of c) _ (init_ts (tc_subs c) (tc_prog c)) (tc_sched c) _
-                      ltac:(intros i; reflexivity) RS) as (GT & FT).
+  destruct (setup_good (tc_subs c) (tc_pa c) (tc_pb c) (length (tc_subs c)) 0 _ _ R0) as (RS & FS).
+  destruct (trun_good (tc_subs c) (tc_pa c) (tc_pb c) (fuel_of c) _ (init_ts (tc_subs c) (tc_pa c) (tc_pb c)) (tc_sched c) _
+                      (init_stacks_ok _ _ _) RS) as (GT & FT).
   rewrite mon_lines_enc by (apply Forall_app; split; assumption).
   rewrite mon_tr_app. exact GT.
 Qed.
